@@ -207,26 +207,42 @@ def check_descriptor_lifts(chk, F):
             chk.obligation(rid, good, "Sh|" + var, "Sh(%s)::lift = %r" % (var, [r for c, r in res]), F.fns[p]["span"])
     except (KeyError, Unsupported) as e:
         chk.fail(rid, "Sh|unanalysable", "unanalysable: %s" % e, kind="unanalysable")
-    # TapTree: 1-of-n over the leaves' lifts, in leaf order
+    # TapTree: 1-of-n over the leaves' lifts; a leaf that does not lift makes the tree's lift fail (no path is hidden)
     try:
+        from . import c15, c18
+        from ..interp import ok as _ok, err as _err
+        from ..builtins import deref
+        sys.path.insert(0, os.path.join(os.path.dirname(__file__), "..", "..", "spec"))
+        import policy_sem as PS
         p = lift_impl(F, "descriptor::tr::taptree::TapTree")
         chk.saw(p)
-        leaves = F.fn("leaves", file="descriptor/tr/taptree.rs", container="TapTree<")
-        msf = F.fn("miniscript", file="descriptor/tr/taptree.rs")
-        hooks = {leaves: lambda mm, a, c: PyIter([Term("leaf", 0), Term("leaf", 1), Term("leaf", 2)]),
-                 msf: lambda mm, a, c: Term("ms_of", a[0])}
-        m = Machine(F, strict=False, hooks=hooks, uninterpreted=unint)
-        m.fork_logic = False
-        res = explore(m, lambda: m.call_path(p, [Term("taptree")]))
-        # the all-Ok path
-        oks = [r for c, r in res if isinstance(r, Adt) and r.variant == "Ok"]
-        good = False
-        if len(oks) == 1:
-            g = nf(oks[0])
-            good = g[0] == "thresh" and g[1] == 1 and len(g[2]) == 3 and \
-                all(("leaf(%d)" % i) in repr(x) for i, x in enumerate(g[2]))
-        chk.obligation(rid, good, "TapTree", "TapTree::lift = %r, expected thresh(1; lift(leaf0), lift(leaf1), lift(leaf2))"
-                       % ([nf(o) for o in oks],), F.fns[p]["span"])
+        SP = "policy::semantic::Policy"
+        for failing in (None, "B", "A", "C"):
+            hooks = {}
+            mlift = lift_impl(F, "miniscript::private::Miniscript")
+
+            def leaf_lift(mm, a, c, failing=failing):
+                nm = deref(a[0]).fields["leafname"]
+                return _err(Term("LiftError", nm)) if nm == failing else _ok(Adt(SP, "Key", {"0": nm}))
+
+            def leaf_check(mm, a, c, failing=failing):
+                nm = deref(a[0]).fields["leafname"]
+                return _err(Term("LiftError", nm)) if nm == failing else _ok(())
+            hooks[mlift] = leaf_lift
+            for q in F.fns:
+                if q.endswith("::lift_check") and "Miniscript" in q:
+                    hooks[q] = leaf_check
+            m = Machine(F, strict=True, hooks=hooks)
+            tree = c15.mk_tree("{A,{B,C}}")
+            r = m.call_callee({"def": p, "resolved": p, "name": "lift", "targs": ["PK"]}, [tree])
+            key = "TapTree|%s" % ("all leaves lift" if failing is None else "leaf %s does not lift" % failing)
+            if failing is None:
+                good = isinstance(r, Adt) and r.variant == "Ok" and PS.equivalent(
+                    c18.from_lib(r.fields["0"]), ("or", [("key", "A"), ("key", "B"), ("key", "C")]))
+                chk.obligation(rid, good, key, "TapTree::lift = %r, expected 1-of-(lift A, lift B, lift C)" % (r,), F.fns[p]["span"])
+            else:
+                chk.obligation(rid, isinstance(r, Adt) and r.variant == "Err", key, "TapTree::lift = %r although leaf %s does not "
+                               "lift: its spending paths are missing from the policy" % (r, failing), F.fns[p]["span"])
     except (KeyError, Unsupported) as e:
         chk.fail(rid, "TapTree|unanalysable", "unanalysable: %s" % e, kind="unanalysable")
 
